@@ -1024,6 +1024,157 @@ func (m *Model) rmwLoops() []*rmwLoop {
 	return out
 }
 
+// readStateGuard describes for which state of the document the loop read a write-back call is
+// reached: " / only when the document read has <flag>" if the call is unreachable once the edges
+// on which a bool field of the read document is true are cut, otherwise " / whatever the state of
+// the document read". It is part of the obligation's key, so that widening the condition under
+// which a CAS-less write-back is used is a different finding.
+func (m *Model) readStateGuard(fn *ssa.Function, lp *rmwLoop, w ssa.CallInstruction) string {
+	// decided in the function that holds the write-back call (the loop itself, or the dispatch
+	// helper the loop hands the document to)
+	site := w
+	fn = w.Parent()
+	var docT types.Type
+	for _, rd := range lp.Reads {
+		v := rd.Value()
+		if v == nil {
+			continue
+		}
+		t := v.Type()
+		if tup, ok := t.(*types.Tuple); ok && tup.Len() > 0 {
+			t = tup.At(0).Type()
+		}
+		if pt, ok := t.Underlying().(*types.Pointer); ok {
+			t = pt.Elem()
+		}
+		if _, ok := t.Underlying().(*types.Struct); ok {
+			docT = t
+		}
+	}
+	if docT == nil {
+		return ""
+	}
+	cuts := map[string]*cut{}
+	for _, iff := range allIfs(fn) {
+		cd := condOf(iff)
+		if cd.Op != token.ILLEGAL || cd.X == nil {
+			continue
+		}
+		ld, ok := cd.X.(*ssa.UnOp)
+		if !ok || ld.Op != token.MUL {
+			continue
+		}
+		fa, ok := ld.X.(*ssa.FieldAddr)
+		if !ok {
+			continue
+		}
+		pt, ok := fa.X.Type().Underlying().(*types.Pointer)
+		if !ok || !types.Identical(pt.Elem(), docT) {
+			continue
+		}
+		f := fieldOf(fa)
+		if b, ok := f.Type().Underlying().(*types.Basic); !ok || b.Kind() != types.Bool {
+			continue
+		}
+		if cuts[f.Name()] == nil {
+			cuts[f.Name()] = newCut()
+		}
+		cuts[f.Name()].cutEdge(iff.Block(), cd.succWhen(true))
+	}
+	var names []string
+	for n := range cuts {
+		names = append(names, n)
+	}
+	sort.Strings(names)
+	for _, n := range names {
+		if !entryReach(fn, cuts[n])[site.Block().Index] {
+			return " / only when the document read has " + n
+		}
+	}
+	return " / whatever the state of the document read"
+}
+
+// mustBeFailureReturn: the error result of ret is non-nil on EVERY path: it is a freshly made
+// error value or a sentinel, or the return is unreachable once the edges on which the returned
+// error value was found non-nil are cut.
+func (m *Model) mustBeFailureReturn(ret *ssa.Return) bool {
+	if len(ret.Results) == 0 {
+		return false
+	}
+	errV := ret.Results[len(ret.Results)-1]
+	if !types.Identical(errV.Type(), types.Universe.Lookup("error").Type()) {
+		return false
+	}
+	if c, ok := errV.(*ssa.Const); ok {
+		return c.Value != nil
+	}
+	if _, ok := errV.(*ssa.MakeInterface); ok {
+		return true
+	}
+	if ld, ok := errV.(*ssa.UnOp); ok {
+		if _, isG := ld.X.(*ssa.Global); isG {
+			return true
+		}
+	}
+	if call, ok := errV.(*ssa.Call); ok {
+		if f := call.Common().StaticCallee(); f != nil && f.Pkg != nil && (f.Pkg.Pkg.Path() == "fmt" || f.Pkg.Pkg.Path() == "errors") {
+			return true
+		}
+	}
+	fn := ret.Parent()
+	c := newCut()
+	for _, iff := range allIfs(fn) {
+		cd := condOf(iff)
+		eq, ok := cd.equalEdge()
+		if !ok || !(isNilConst(cd.X) || isNilConst(cd.Y)) {
+			continue
+		}
+		other := cd.X
+		if isNilConst(cd.X) {
+			other = cd.Y
+		}
+		if stripConv(other) != stripConv(errV) {
+			continue
+		}
+		for _, s := range iff.Block().Succs {
+			if s != eq {
+				c.cutEdge(iff.Block(), s)
+			}
+		}
+	}
+	return len(c.edges) > 0 && !entryReach(fn, c)[ret.Block().Index]
+}
+
+// trueOnlyWhereNil: the bool result `idx` of callee can be true only on paths on which its
+// pointer parameter p was compared with nil and found nil.
+func (m *Model) trueOnlyWhereNil(callee *ssa.Function, idx int, p *ssa.Parameter) bool {
+	c := newCut()
+	for _, iff := range allIfs(callee) {
+		cd := condOf(iff)
+		eq, ok := cd.equalEdge()
+		if !ok {
+			continue
+		}
+		if isNilConst(cd.Y) && stripConv(cd.X) == ssa.Value(p) || isNilConst(cd.X) && stripConv(cd.Y) == ssa.Value(p) {
+			c.cutEdge(iff.Block(), eq)
+		}
+	}
+	if len(c.edges) == 0 {
+		return false
+	}
+	reach := entryReach(callee, c)
+	for _, ret := range returnsOf(callee) {
+		if !reach[ret.Block().Index] || idx >= len(ret.Results) {
+			continue
+		}
+		cst, ok := ret.Results[idx].(*ssa.Const)
+		if !ok || cst.Value == nil || constant.BoolVal(cst.Value) {
+			return false
+		}
+	}
+	return true
+}
+
 func (m *Model) ruleRMW(r *Results) {
 	const rule = "R-RMW"
 	a := &m.A
@@ -1055,7 +1206,7 @@ func (m *Model) ruleRMW(r *Results) {
 				}
 			}
 			if !isCond || idx < 0 {
-				r.bad(rule, key+" / no CAS", m.instrPos(w), "the read-modify-write loop writes back through %s, which takes no expected CAS: a write that lands between the loop's read and this write is silently overwritten (the callback is not re-run on the newer version)", callee.Name())
+				r.bad(rule, key+" / no CAS"+m.readStateGuard(fn, lp, w), m.instrPos(w), "the read-modify-write loop writes back through %s, which takes no expected CAS: a write that lands between the loop's read and this write is silently overwritten (the callback is not re-run on the newer version)", callee.Name())
 				continue
 			}
 			arg := w.Common().Args[idx]
@@ -1266,6 +1417,56 @@ func (m *Model) ruleRMW(r *Results) {
 		r.check(wrapped == "", rule, "CAS-mismatch error is returned unwrapped", "-", "no CasMismatchErr is wrapped by fmt.Errorf (the retry loops recognise it by type assertion)", "a CasMismatchErr is wrapped with fmt.Errorf at "+wrapped+" while the retry loops test `err.(CasMismatchErr)`: a lost race is then reported to the caller as a failure instead of being retried")
 	}
 	// (d) UpdateFunc contract (sg-bucket): "updated == nil and !delete" means "leave the body alone", so the
+	// a retry loop that gives up (a bounded number of attempts) reports an error: the return
+	// reached through the loop counter's exit edge is a failure return. A bare `return 0, err`
+	// there returns whatever the named result last held - nil after a successful read - so the
+	// caller is told the write happened
+	for _, lp := range loops {
+		fn := lp.Fn
+		if len(lp.Reads) == 0 {
+			continue
+		}
+		hdr, loop := naturalLoop(lp.Reads[0].Block())
+		if hdr == nil {
+			continue
+		}
+		iff, ok := hdr.Instrs[len(hdr.Instrs)-1].(*ssa.If)
+		if !ok {
+			continue
+		}
+		// the exit condition tests an integer counter carried round the loop
+		counter := false
+		if bo, isBo := iff.Cond.(*ssa.BinOp); isBo {
+			for _, v := range []ssa.Value{bo.X, bo.Y} {
+				v = stripConv(v)
+				if inner, isIn := v.(*ssa.BinOp); isIn {
+					v = stripConv(inner.X)
+				}
+				if phi, isPhi := v.(*ssa.Phi); isPhi && phi.Block() == hdr {
+					if b, isB := phi.Type().Underlying().(*types.Basic); isB && b.Info()&types.IsInteger != 0 {
+						counter = true
+					}
+				}
+			}
+		}
+		if !counter {
+			continue
+		}
+		for _, s := range hdr.Succs {
+			if loop[s] {
+				continue
+			}
+			c := newCut()
+			c.cutBlock(hdr)
+			reach := reachableFrom(s, c)
+			for _, ret := range returnsOf(fn) {
+				if !reach[ret.Block().Index] {
+					continue
+				}
+				r.check(m.mustBeFailureReturn(ret), rule, m.declName(lp.nameFn())+" / giving up reports an error", m.instrPos(ret), "the return reached when the attempts are used up returns an error", "when the bounded retry loop runs out of attempts the function returns a value that is not known to be an error (e.g. the named result, which a later successful read reset to nil): the caller is told the write succeeded although nothing was written")
+			}
+		}
+	}
 	// body written back must be either the callback's body or the body that was read
 	for _, lp := range loops {
 		fn := lp.Fn
@@ -1279,6 +1480,88 @@ func (m *Model) ruleRMW(r *Results) {
 		})
 		if cbCall == nil {
 			continue
+		}
+		// an expiry the callback supplies is never thrown away: once the callback has returned, a
+		// success return that skips the write-back is reachable only where the callback's expiry
+		// pointer was found nil ("cancelled" = no body, no expiry, no delete)
+		{
+			var expPtr ssa.Value
+			if cbCall.Referrers() != nil {
+				for _, ref := range *cbCall.Referrers() {
+					if ex, ok := ref.(*ssa.Extract); ok {
+						if pt, ok := ex.Type().Underlying().(*types.Pointer); ok {
+							if b, ok := pt.Elem().Underlying().(*types.Basic); ok && b.Kind() == types.Uint32 {
+								expPtr = ex
+							}
+						}
+					}
+				}
+			}
+			if expPtr != nil {
+				c := newCut()
+				for _, w := range lp.Writes {
+					site := w
+					if v, ok := lp.Via[w]; ok {
+						site = v
+					}
+					if site.Parent() == fn {
+						c.cutBlock(site.Block())
+					}
+				}
+				for _, iff := range allIfs(fn) {
+					cd := condOf(iff)
+					eq, ok := cd.equalEdge()
+					if !ok {
+						continue
+					}
+					if isNilConst(cd.Y) && stripConv(cd.X) == expPtr || isNilConst(cd.X) && stripConv(cd.Y) == expPtr {
+						c.cutEdge(iff.Block(), eq)
+					}
+				}
+				// a "cancelled" flag computed by a helper that is handed the expiry pointer and
+				// can say true only where that pointer is nil
+				for _, iff := range allIfs(fn) {
+					cd := condOf(iff)
+					if cd.Op != token.ILLEGAL || cd.X == nil {
+						continue
+					}
+					v := stripConv(cd.X)
+					idx := 0
+					if ex, ok := v.(*ssa.Extract); ok {
+						v, idx = ex.Tuple, ex.Index
+					}
+					call, ok := v.(*ssa.Call)
+					if !ok {
+						continue
+					}
+					callee := call.Common().StaticCallee()
+					if callee == nil || !m.inPkg(callee) || len(callee.Blocks) == 0 {
+						continue
+					}
+					for pi, a := range call.Common().Args {
+						if stripConv(a) == expPtr && pi < len(callee.Params) && m.trueOnlyWhereNil(callee, idx, callee.Params[pi]) {
+							c.cutEdge(iff.Block(), cd.succWhen(true))
+						}
+					}
+				}
+				reach := reachableFromSuccs(cbCall.Block(), c)
+				bad := ""
+				for _, ret := range returnsOf(fn) {
+					if lp.Outer != nil && lp.Retry < len(ret.Results) {
+						if cst, ok := ret.Results[lp.Retry].(*ssa.Const); ok && cst.Value != nil && constant.BoolVal(cst.Value) {
+							continue // "go round again" is not a result
+						}
+					}
+					if reach[ret.Block().Index] && !m.isFailureReturn(ret) {
+						bad = m.instrPos(ret)
+					}
+				}
+				pos := m.instrPos(cbCall)
+				if bad != "" {
+					pos = bad
+				}
+				r.check(bad == "", rule, m.declName(fn)+" / callback's expiry is never discarded", pos, "after the callback, a success return without a write-back is reachable only where the callback's expiry pointer is nil", "the loop can return success without writing although the callback supplied an expiry (the 'cancelled' test ignores the expiry result): an Update that only sets or lengthens the expiry is silently dropped, the stored expiry and the timer keep their old values")
+			}
 		}
 		for _, w := range lp.Writes {
 			// the []byte / any body argument of the write-back
